@@ -4,14 +4,21 @@
 
     pn        digit accumulation           (Props/ParseNumber)
     fast      fast path                    (Props/ParseNumber + RneSpec.rne_congr)
-    modTotal  the moderate stage never panics (Props/LemireArith for Eisel–Lemire; table look-ups
-              of Bellerophon are guarded)
+    modTotal  the moderate stage never panics (Props/LemireArith, Eisel–Lemire)
+    modRange  Eisel–Lemire declines only for a non-zero significand and −342 ≤ q ≤ 308 (Props/C04)
+    modSound, modEst (Eisel–Lemire: Props/LemireSound, Props/NoAllOnes), slow (Props/SlowPath)
 
-  The remaining three contracts (`modSound`, `modEst`, `slow`) are collected in `Open`.
+  Result: `parseCorrect_noncompact` — no hypothesis left for the non-compact configurations.
+  For the compact (Bellerophon) configurations the contracts about `bellerophon genBel F` are
+  collected in `OpenCompact F`.
 -/
 import MinLex.Props.Main
 import MinLex.Props.ParseNumber
 import MinLex.Props.LemireArith
+import MinLex.Props.LemireSound
+import MinLex.Props.NoAllOnes
+import MinLex.Props.SlowPath
+import MinLex.Props.C04
 namespace MinLex.Compose
 open MinLex MinLex.Main
 
@@ -109,93 +116,136 @@ theorem lemire_total {F : FloatC} (hF : F = Gen.F32 ∨ F = Gen.F64) (n : Number
     | none => exact absurd hl hne
     | some fp => exact ⟨fp, rfl⟩
 
-theorem ite_some_ex {α : Type} {c : Prop} [Decidable c] {a : α} {o : Option α}
-    (h : ∃ x, o = some x) : ∃ x, (if c then some a else o) = some x := by
-  by_cases hc : c
-  · rw [if_pos hc]; exact ⟨_, rfl⟩
-  · rw [if_neg hc]; exact h
+/-- `moderatePath` of a non-compact environment is Eisel–Lemire on the regenerated tables -/
+theorem moderatePath_noncompact (cfg : Cfg) (hc : cfg.compact = false) (F : FloatC) (n : Number) :
+    moderatePath (genEnv cfg) F n = lemire genLemire F n := by
+  unfold moderatePath
+  have : (genEnv cfg).cfg.compact = false := hc
+  rw [this]; rfl
 
-/-- `bellerophon` over ANY tables of the right lengths never takes the index-panic branch: all
-    three look-ups are guarded. -/
-theorem bellerophon_total_T (T : BelTables) (hstep : T.step = 10) (h1 : T.small.length = 10)
-    (h2 : T.smallInt.length = 10) (F : FloatC) (n : Number) :
-    ∃ fp, bellerophon T F n = some fp := by
-  unfold bellerophon
-  simp only
-  refine ite_some_ex (ite_some_ex ?_)
-  by_cases hneg : n.exponent + T.bias < 0
-  · rw [if_pos hneg]; exact ⟨_, rfl⟩
-  rw [if_neg hneg]
-  by_cases hlarge : (Int.tdiv (n.exponent + T.bias) T.step).toNat ≥ T.large.length
-  · rw [if_pos hlarge]; exact ⟨_, rfl⟩
-  rw [if_neg hlarge]
-  have hidx : (Int.tmod (n.exponent + T.bias) T.step).toNat < 10 := by
-    rw [hstep]
-    have := Int.tmod_lt_of_pos (n.exponent + T.bias) (show (0:Int) < 10 by decide)
-    omega
-  have e1 : T.smallInt[(Int.tmod (n.exponent + T.bias) T.step).toNat]? = some _ :=
-    List.getElem?_eq_getElem (by omega)
-  have e2 : T.getSmall (Int.tmod (n.exponent + T.bias) T.step).toNat = some _ := by
-    unfold BelTables.getSmall
-    rw [List.getElem?_eq_getElem (by omega)]
-  have e3 : T.getLarge (Int.tdiv (n.exponent + T.bias) T.step).toNat = some _ := by
-    unfold BelTables.getLarge
-    rw [List.getElem?_eq_getElem (by omega)]
-  rw [e1, e2, e3]
-  simp only
-  exact ite_some_ex (ite_some_ex (ite_some_ex ⟨_, rfl⟩))
+/-- `moderatePath` of a compact environment is Bellerophon on the regenerated tables -/
+theorem moderatePath_compact (cfg : Cfg) (hc : cfg.compact = true) (F : FloatC) (n : Number) :
+    moderatePath (genEnv cfg) F n = bellerophon genBel F n := by
+  unfold moderatePath
+  have : (genEnv cfg).cfg.compact = true := hc
+  rw [this]; rfl
 
-theorem genBel_lengths : genBel.step = 10 ∧ genBel.small.length = 10 ∧ genBel.smallInt.length = 10 ∧
-    genBel.large.length = 66 ∧ genBel.bias = 350 := by decide
-
-theorem bellerophon_total (F : FloatC) (n : Number) : ∃ fp, bellerophon genBel F n = some fp :=
-  bellerophon_total_T genBel genBel_lengths.1 genBel_lengths.2.1 genBel_lengths.2.2.1 F n
-
-#exit
-theorem modTotal_genEnv (cfg : Cfg) {F : FloatC} (hF : F = Gen.F32 ∨ F = Gen.F64) :
+theorem modTotal_noncompact (cfg : Cfg) (hc : cfg.compact = false) {F : FloatC}
+    (hF : F = Gen.F32 ∨ F = Gen.F64) :
     ∀ n, NumOK n → ∃ fp, moderatePath (genEnv cfg) F n = some fp := by
   intro n hn
-  unfold moderatePath
-  by_cases hc : (genEnv cfg).cfg.compact = true
-  · rw [if_pos hc]; exact bellerophon_total F n
-  · rw [if_neg hc]; exact lemire_total hF n hn
+  rw [moderatePath_noncompact cfg hc]
+  exact lemire_total hF n hn
 
--- both stages are exercised
-example : (moderatePath (genEnv ⟨false, true, true⟩) Gen.F64 ⟨-5, 1234567, false⟩).isSome = true ∧
-    (moderatePath (genEnv ⟨true, true, true⟩) Gen.F64 ⟨-5, 1234567, false⟩).isSome = true := by
-  decide +kernel
+-- ------------------------------------------------------------------ (d) modRange (Eisel–Lemire)
+theorem lemF_of {F : FloatC} (hF : F = Gen.F32 ∨ F = Gen.F64) : LemireP.LemF F := by
+  rcases hF with rfl | rfl
+  · exact LemireP.LemF_F32
+  · exact LemireP.LemF_F64
 
--- ------------------------------------------------------------------ the remaining contracts
-/-- The stage contracts of `Main.Hyps` that are NOT discharged here: soundness of a definite
-    answer of the moderate stage (C11), the hand-off contract of a declined answer, and the
-    big-integer path. -/
-structure Open (E : Env) (F : FloatC) : Prop where
-  /-- C11: a definite answer of the moderate stage is right -/
-  modSound : ∀ n v fp, Denotes n v → NumOK n → moderatePath E F n = some fp → 0 ≤ fp.exp →
-    extendedToFloat F fp = rne F.fmt v
-  /-- a declined answer satisfies the hand-off contract -/
-  modEst : ∀ n v fp, Denotes n v → NumOK n → moderatePath E F n = some fp → fp.exp < 0 →
-    EstOK F ⟨fp.mant, wrapI32 (fp.exp - F.invalidFp)⟩ v
-  /-- big-integer path: correct whenever the hand-off contract holds -/
-  slow : ∀ int frac e fp, Valid int frac e → EstOK F fp (digitsValue int frac e) →
-    ∃ r, slow E.cap E.pow F (parseNumber int frac e) fp int frac = some r ∧
-      extendedToFloat F r = rne F.fmt (digitsValue int frac e)
+/-- Eisel–Lemire declines only on a non-zero significand with `−342 ≤ q ≤ 308` -/
+theorem modRange_noncompact (cfg : Cfg) (hc : cfg.compact = false) {F : FloatC}
+    (hF : F = Gen.F32 ∨ F = Gen.F64) :
+    ∀ n fp, NumOK n → moderatePath (genEnv cfg) F n = some fp → fp.exp < 0 →
+      n.mantissa ≠ 0 ∧ -400 ≤ n.exponent ∧ n.exponent ≤ 400 := by
+  intro n fp hn hmp hneg
+  rw [moderatePath_noncompact cfg hc] at hmp
+  have hL := lemF_of hF
+  obtain ⟨h1, h2, _, _⟩ := hn
+  have hm0 : n.mantissa ≠ 0 := by
+    intro hm
+    have hmd : n.manyDigits = false := by
+      cases hc : n.manyDigits with
+      | false => rfl
+      | true => have := h2 hc; omega
+    rw [lemire_zero _ _ n hm hmd] at hmp
+    cases hmp
+    exact absurd hneg (by decide)
+  have hlt : n.mantissa + 1 < 2 ^ 64 := by
+    have : (10 : Nat) ^ 19 + 1 < 2 ^ 64 := by norm_num
+    omega
+  have hr := C04.C04b_lemire_range hL n (by omega) hlt hmp hneg
+  have := hL.sm; have := hL.lg
+  exact ⟨hm0, by omega, by omega⟩
 
-theorem hyps_of_open (cfg : Cfg) {F : FloatC} (hF : F = Gen.F32 ∨ F = Gen.F64)
-    (h : Open (genEnv cfg) F) : Hyps (genEnv cfg) F :=
+-- ------------------------------------------------------------------ non-compact: everything closed
+/-- **All seven stage contracts hold for every non-compact configuration**, f32 and f64. -/
+theorem hyps_noncompact (cfg : Cfg) (hc : cfg.compact = false) {F : FloatC}
+    (hF : F = Gen.F32 ∨ F = Gen.F64) : Hyps (genEnv cfg) F :=
   { pn := pn_genEnv cfg
     fast := fast_genEnv cfg hF
-    modTotal := modTotal_genEnv cfg hF
-    modSound := h.modSound
-    modEst := h.modEst
-    slow := h.slow }
+    modTotal := modTotal_noncompact cfg hc hF
+    modSound := by
+      rcases hF with rfl | rfl
+      · exact LemireSound.modSound_genEnv_f32 cfg hc
+      · exact LemireSound.modSound_genEnv_f64 cfg hc
+    modEst := by
+      rcases hF with rfl | rfl
+      · exact NoAllOnes.modEst_genEnv_f32 cfg hc
+      · exact NoAllOnes.modEst_genEnv_f64 cfg hc
+    modRange := modRange_noncompact cfg hc hF
+    slow := SlowPath.slow_correct_range400 cfg hF }
 
-theorem open_of_hyps {E : Env} {F : FloatC} (h : Hyps E F) : Open E F :=
-  ⟨h.modSound, h.modEst, h.slow⟩
+/-- **`parse_float` is `rne ∘ digitsValue` on valid input, for every non-compact configuration
+    (std / no_std, alloc / stack), f32 and f64 — no remaining hypothesis.** -/
+theorem parseCorrect_noncompact (cfg : Cfg) (hc : cfg.compact = false) {F : FloatC}
+    (hF : F = Gen.F32 ∨ F = Gen.F64) : ParseCorrect (genEnv cfg) F :=
+  parseCorrect_of_hyps (hyps_noncompact cfg hc hF)
 
+-- the moderate stage is exercised (definite and declined answers)
+example : (moderatePath (genEnv ⟨false, true, true⟩) Gen.F64 ⟨-5, 1234567, false⟩).isSome = true := by
+  decide +kernel
+
+-- ------------------------------------------------------------------ compact: the open contracts
+/-- The stage contracts that are NOT discharged here for the compact (Bellerophon) configurations.
+    They speak about `bellerophon genBel F` only (no dependence on the other features). -/
+structure OpenCompact (F : FloatC) : Prop where
+  /-- Bellerophon never takes its index-panic branch (all look-ups are guarded) -/
+  modTotal : ∀ n, NumOK n → ∃ fp, bellerophon genBel F n = some fp
+  /-- C11: a definite answer of Bellerophon is right -/
+  modSound : ∀ n v fp, Denotes n v → NumOK n → bellerophon genBel F n = some fp → 0 ≤ fp.exp →
+    extendedToFloat F fp = rne F.fmt v
+  /-- a declined answer satisfies the hand-off contract -/
+  modEst : ∀ n v fp, Denotes n v → NumOK n → bellerophon genBel F n = some fp → fp.exp < 0 →
+    EstOK F ⟨fp.mant, wrapI32 (fp.exp - F.invalidFp)⟩ v
+  /-- Bellerophon declines only on non-zero significands with a moderate decimal exponent -/
+  modRange : ∀ n fp, NumOK n → bellerophon genBel F n = some fp → fp.exp < 0 →
+    n.mantissa ≠ 0 ∧ -400 ≤ n.exponent ∧ n.exponent ≤ 400
+
+theorem hyps_compact (cfg : Cfg) (hc : cfg.compact = true) {F : FloatC}
+    (hF : F = Gen.F32 ∨ F = Gen.F64) (h : OpenCompact F) : Hyps (genEnv cfg) F :=
+  { pn := pn_genEnv cfg
+    fast := fast_genEnv cfg hF
+    modTotal := fun n hn => by rw [moderatePath_compact cfg hc]; exact h.modTotal n hn
+    modSound := fun n v fp hd hn hmp => by
+      rw [moderatePath_compact cfg hc] at hmp; exact h.modSound n v fp hd hn hmp
+    modEst := fun n v fp hd hn hmp => by
+      rw [moderatePath_compact cfg hc] at hmp; exact h.modEst n v fp hd hn hmp
+    modRange := fun n fp hn hmp => by
+      rw [moderatePath_compact cfg hc] at hmp; exact h.modRange n fp hn hmp
+    slow := SlowPath.slow_correct_range400 cfg hF }
+
+theorem parseCorrect_compact (cfg : Cfg) (hc : cfg.compact = true) {F : FloatC}
+    (hF : F = Gen.F32 ∨ F = Gen.F64) (h : OpenCompact F) : ParseCorrect (genEnv cfg) F :=
+  parseCorrect_of_hyps (hyps_compact cfg hc hF h)
+
+/-- every configuration: closed for the non-compact ones, `OpenCompact F` for the compact ones -/
 theorem parseCorrect_of_open (cfg : Cfg) {F : FloatC} (hF : F = Gen.F32 ∨ F = Gen.F64)
-    (h : Open (genEnv cfg) F) : ParseCorrect (genEnv cfg) F :=
-  parseCorrect_of_hyps (hyps_of_open cfg hF h)
+    (h : OpenCompact F) : ParseCorrect (genEnv cfg) F := by
+  cases hc : cfg.compact with
+  | false => exact parseCorrect_noncompact cfg hc hF
+  | true => exact parseCorrect_compact cfg hc hF h
+
+/-- the open contracts are exactly what `Hyps` of a compact configuration contains -/
+theorem openCompact_of_hyps (cfg : Cfg) (hc : cfg.compact = true) {F : FloatC}
+    (h : Hyps (genEnv cfg) F) : OpenCompact F :=
+  { modTotal := fun n hn => by rw [← moderatePath_compact cfg hc]; exact h.modTotal n hn
+    modSound := fun n v fp hd hn hmp => by
+      rw [← moderatePath_compact cfg hc] at hmp; exact h.modSound n v fp hd hn hmp
+    modEst := fun n v fp hd hn hmp => by
+      rw [← moderatePath_compact cfg hc] at hmp; exact h.modEst n v fp hd hn hmp
+    modRange := fun n fp hn hmp => by
+      rw [← moderatePath_compact cfg hc] at hmp; exact h.modRange n fp hn hmp }
 
 theorem F32_fmt : Gen.F32.fmt = Fmt.f32 := rfl
 theorem F64_fmt : Gen.F64.fmt = Fmt.f64 := rfl
